@@ -211,12 +211,14 @@ def st_history(long_ids: bool):
                     st.booleans(), st.booleans(), st.booleans(), mid).map(list)
     bye = st.tuples(st.just('bye'), st.sampled_from(EPRS), mid).map(list)
     probe = st.tuples(st.just('probe'), st.one_of(st.none(), st.lists(st.sampled_from([('urn:t', 'A'), ('urn:t', 'B'), ('urn:x', 'Z')]), max_size=2)),
-                      st.one_of(st.none(), st.tuples(st.lists(st.sampled_from(['http://example.org/l1', 'HTTP://EXAMPLE.org/l1/sub', 'http://example.org/zz', 'sdc.ctxt.loc:/r']), max_size=2),
+                      st.one_of(st.none(), st.tuples(st.lists(st.sampled_from(['http://example.org/l1', 'HTTP://EXAMPLE.org/l1/sub', 'http://example.org/zz', 'sdc.ctxt.loc:/r', 'http://example.org/moved1', 'http://example.org/moved2/sub']), max_size=2),
                                                      st.sampled_from([RFC3986, STRCMP, None]))),
                       mid).map(list)
     resolve = st.tuples(st.just('resolve'), st.sampled_from(LOCAL + ['urn:uuid:unknown', EPRS[0]]), mid).map(list)
     filler = st.tuples(st.just('filler'), st.integers(201, 230)).map(list)
-    steps = [ann, ann, ann, bye, probe, resolve]
+    # a local service is published again with other metadata (a provider that was relocated)
+    republish = st.tuples(st.just('republish'), st.integers(0, len(LOCAL) - 1), st.integers(0, 2), st.booleans()).map(list)
+    steps = [ann, ann, ann, bye, probe, probe, resolve, republish]
     if long_ids:
         # the memory of 200 ids is full from the start, and may be flushed again later
         return st.tuples(filler, st.lists(st.one_of([*steps, probe, resolve, filler]), min_size=1, max_size=14)).map(
@@ -335,7 +337,7 @@ def history_case(ctx, hist):  # noqa: C901, PLR0912, PLR0915
         model.remember(m.p_msg.header_info_block.MessageID)
     del rec.outbound[:]
     out = []
-    flags = {'dup': False, 'out_of_order': False, 'answered': False, 'dup-after-200': False}
+    flags = {'dup': False, 'out_of_order': False, 'answered': False, 'dup-after-200': False, 'republished': False}
     seq = 0
     for si, step in enumerate(hist):
         if step[0] == 'filler':
@@ -350,6 +352,31 @@ def history_case(ctx, hist):  # noqa: C901, PLR0912, PLR0915
             if rec.outbound[n_out:]:
                 raise R.HarnessError('filler messages must not be answered: ' + str([(m.p_msg.header_info_block.Action, a) for m, a, *_ in rec.outbound][:3]))
             del dispatched[:]
+            continue
+        if step[0] == 'republish':
+            _, idx, variant, with_b = step
+            epr = LOCAL[idx]
+            sc = wsd_types.ScopesType()
+            sc.text.extend([f'http://example.org/moved{variant}/sub' if variant else f'http://example.org/l{idx + 1}/sub',
+                            'sdc.ctxt.loc:/r/x'])
+            types = [etree.QName('urn:t', 'A')] + ([etree.QName('urn:t', 'B')] if with_b else [])
+            n_out = len(rec.outbound)
+            wsd.publish_service(epr, types, sc, [f'http://10.0.0.9:80/{idx}/{variant}'])
+            local[epr] = ([('urn:t', 'A')] + ([('urn:t', 'B')] if with_b else []), list(sc.text))
+            flags['republished'] = True
+            hellos = rec.outbound[n_out:]
+            for m, *_ in hellos:
+                model.remember(m.p_msg.header_info_block.MessageID)
+            if len(hellos) != 1:
+                out.append((f'{P}/history/republish-hello-count', f'step {si} {step}: {len(hellos)} messages sent'))
+                break
+            hello = wsd_types.HelloType.from_node(etree.fromstring(hellos[0][0].serialize()).find('.//{%s}Hello' % NS_D))
+            got_scopes = list(hello.Scopes.text) if hello.Scopes is not None else []
+            got_types = [(q.namespace, q.localname) for q in (hello.Types or [])]
+            if got_scopes != list(sc.text) or got_types != local[epr][0]:
+                out.append((f'{P}/history/republish-hello-content', f'step {si} {step}: Hello announces types {got_types} '
+                                                                    f'scopes {got_scopes}, published {local[epr]}'))
+                break
             continue
         seq += 1
         mid, data = _mk_message(step, seq)
